@@ -165,7 +165,7 @@ static int32_t cert_cb(ssl_t *ssl, psX509Cert_t *cert, int32_t alert) {
 static int g_trace = -1;
 void MxEndpoint::log(const char *api, int rc, uint32_t len, uint64_t digest) {
     if (g_trace < 0) { g_trace = getenv("VSIM_TRACE") ? 1 : 0; }
-    if (g_trace) { fprintf(stderr, "[n%d %s hs=%d] %s rc=%d len=%u\n", node, cfg.server ? "srv" : "cli", hs_state(), api, rc, len); }
+    if (g_trace) { fprintf(stderr, "[n%d %s hs=%d] %s rc=%d len=%u dg=%llx\n", node, cfg.server ? "srv" : "cli", hs_state(), api, rc, len, (unsigned long long) digest); }
     events.push_back({ api, rc, len, digest });
     fp.add(hash_str(api)); fp.add((uint64_t) (int64_t) rc); fp.add(len); fp.add(digest);
 }
